@@ -586,6 +586,10 @@ fn c15(tier: &str, thorough: bool) -> i32 {
         let pbv = pb.verifier_data();
         let inners: Vec<Proof> = (0..3).into_par_iter().map(|i| prove_private_raw(&pb, &pbt, &[reals[i].clone()], &[dig(60 + i as u64)]).unwrap()).collect();
         let dummy_inner = prove_private_raw(&pb, &pbt, &[dummy.clone()], &[dig(70)]).unwrap();
+        // a supplied all-dummy inner (index 3): distinguishable from the padding template by its
+        // replacement nullifier; it must stay where the caller put it
+        let mut inners = inners;
+        inners.push(prove_private_raw(&pb, &pbt, &[dummy.clone()], &[dig(71)]).unwrap());
         let key = |p: &Proof| -> Vec<u64> { p.public_inputs.iter().map(|x| x.to_canonical_u64()).collect() };
         for m in [2usize, 3] {
             let c = wormhole_aggregator::public_batch::circuit::circuit_logic::PublicBatchCircuit::new(zk_circuits_common::circuit::wormhole_public_batch_circuit_config(), pbv.common.clone(), &pbv.verifier_only, m, 1).unwrap();
@@ -593,11 +597,12 @@ fn c15(tier: &str, thorough: bool) -> i32 {
             drop(c);
             let mut orders: Vec<Vec<usize>> = Vec::new();
             for len in 1..=m {
-                product_indices(&vec![3usize; len], |ix| {
+                product_indices(&vec![4usize; len], |ix| {
                     let mut d = ix.to_vec();
                     d.sort();
                     d.dedup();
-                    if d.len() == ix.len() {
+                    // (a vector of dummy inners only is refused by design)
+                    if d.len() == ix.len() && ix.iter().any(|&i| i < 3) {
                         orders.push(ix.to_vec())
                     }
                 });
@@ -639,7 +644,7 @@ fn c15(tier: &str, thorough: bool) -> i32 {
     rep.traces.store(scripts_total, std::sync::atomic::Ordering::Relaxed);
     rep.extra("plan", json!(plan));
     rep.sample(json!({"n": 3, "k": 2, "script (Fisher-Yates index answers for i=2,1)": [2, 0], "words": [word_for(2, 3), word_for(0, 2)]}));
-    rep.rule("choice tree over the environment answers of the shuffle RNG (hook H4): every sequence of Fisher-Yates index answers (N! scripts per (N,k), plus a rejected draw on ranges that have a rejection zone) and every pattern of <=2 non-canonical preimage blocks per slot; each script is executed by the real PrivateBatchProver::commit and the committed slots are read back (hook H3); oracle: multiset = supplied + (N-k) exact template copies, script->arrangement is a bijection onto S_N (N!/(N-k)! arrangements each hit (N-k)! times), slot i gets the i-th canonical block, nothing is left over; public prover: supplied order then templates for every ordered selection. distinct = distinct arrangements");
+    rep.rule("choice tree over the environment answers of the shuffle RNG (hook H4): every sequence of Fisher-Yates index answers (N! scripts per (N,k), plus a rejected draw on ranges that have a rejection zone) and every pattern of <=2 non-canonical preimage blocks per slot; each script is executed by the real PrivateBatchProver::commit and the committed slots are read back (hook H3); oracle: multiset = supplied + (N-k) exact template copies, script->arrangement is a bijection onto S_N (N!/(N-k)! arrangements each hit (N-k)! times), slot i gets the i-th canonical block, nothing is left over; public prover: supplied order then templates for every ordered selection of three real inners and one supplied all-dummy inner (at least one real). distinct = distinct arrangements");
     rep.assume("uniformity of rand's ThreadRng / gen_range themselves; the scripted words assume rand 0.8.6's Lemire sampling (a changed consumption pattern is reported as a machinery error, not as a violation)");
     rep.finish()
 }
